@@ -700,6 +700,29 @@ Conflict(S, r) ==
                /\ BallAt(K(S), NN(S), VIds(S), "PLManifoldStrict") /\ GeometricOrientationOK(S) /\ EmbeddedQ(S)
   IN  \A i \in DOMAIN r.qs : ConflictOne(S, valid, r.qs[i])
 
+\* hull extension (core::algorithms::incremental_insertion::extend_hull): a point outside the complex is joined to
+\* exactly the boundary facets it sees STRICTLY from outside; nothing else changes.  (Mechanism conjunct.)
+ExtendHullOne(S, valid, item) ==
+  LET q == item.q
+      B == Boundary(K(S))
+      dec == \A f \in B : InnerSide(S, f, q) # 0
+      vis == {f \in B : InnerSide(S, f, q) < 0}
+      got == {Range(item.coned[i]) : i \in DOMAIN item.coned}
+  IN
+  /\ Chk("C19.panic in extend_hull", item.kind # "Panic")
+  /\ (valid /\ dec /\ vis # {} =>
+        /\ Chk("MODEL.extend_hull refuses a point that strictly sees hull facets", item.kind = "Ok")
+        /\ (item.kind = "Ok" =>
+              /\ Chk("MODEL.extend_hull does not cone exactly the strictly visible hull facets",
+                     got = vis /\ Cardinality(got) = Len(item.coned))
+              /\ Chk("MODEL.extend_hull changes the number of cells by something else than the visible facets",
+                     item.ncells_after = Len(S.cells) + Cardinality(vis))))
+
+ExtendHull(S, r) ==
+  LET valid == Level1Q(S) /\ Level2Q(S) /\ Len(S.cells) > 0 /\ PertSet(S) = {} /\ ScaleOf(S) = 0
+               /\ BallAt(K(S), NN(S), VIds(S), "PLManifoldStrict") /\ GeometricOrientationOK(S) /\ EmbeddedQ(S)
+  IN  \A i \in DOMAIN r.qs : ExtendHullOne(S, valid, r.qs[i])
+
 \* ---- C11 : convex hull -------------------------------------------------------
 \* H = [facets (sequence of vertex-id sets, in the hull's own order), at (Obs at creation)]
 HullCreateOK(S, r) ==
